@@ -49,6 +49,25 @@ def run(ctx):
     if zero_eval:
         results.append({"evaluations": zero_eval, "distinct_nontrivial": zero_eval, "failures": zero_fail, "errors": [],
                         "samples": [], "distribution": {"zero_step_time_axes": zero_eval}})
+    # a present but impossible latitude (95 degrees): geographiclib returns NaN for the hop, yet nothing is MISSING in the
+    # track - the speed is undefined, not the observation (implementation only: the models take the geodesic
+    # distance as a total function)
+    lat_fail, lat_eval = [], 0
+    for name, ad, cs, r in tied:
+        if name != "speed_test":
+            continue
+        for c in cc.sample([c for c in cs if len(c.get("lat", [])) >= 2], 100 if tier == "quick" else 1000, rng):
+            d = copy.deepcopy(c)
+            i = rng.randrange(len(d["lat"]))
+            if d["lat"][i] is None:
+                continue
+            d["lat"][i] = rng.choice(["95", "-181/2", "100"])
+            canon, _ = ad.impl(d)
+            lat_eval += 1
+            lat_fail += cc.c02_failures(name, d, canon)
+    if lat_eval:
+        results.append({"evaluations": lat_eval, "distinct_nontrivial": lat_eval, "failures": lat_fail, "errors": [],
+                        "samples": [], "distribution": {"tracks_with_a_latitude_beyond_the_poles": lat_eval}})
     # missing written as None / NaN in a plain list or tuple (the form the property names): the predicate itself,
     # evaluated on the flags the implementation returns for that carrier
     import core
